@@ -284,17 +284,22 @@ func genMixed(r *vlib.Rand, id int) Hist {
 
 // plans: deterministic two-party orderings (see runPlan in world.go)
 var planNames = []string{
-	"cancel-parked",    // Cancel returns while the handler is parked after its state checks
-	"cancel-queued",    // Cancel returns while the task still waits behind a running task
-	"sched-parked",     // Schedule returns while the handler is parked after its state checks
-	"sched-defer",      // Schedule returns while the deferred reset of the execution is parked
-	"queue-defer",      // Queue returns while the deferred reset of the execution is parked
-	"stale-timer",      // a max-delay schedule entry is removed before its timer fires; another task is scheduled later
-	"requeue-running",  // a running task with a short MaxDelay is queued again from outside
-	"requeue-overdue",  // a task started by the overdue path re-queues itself
-	"sched-while-run",  // Schedule from outside while the task runs
-	"cancel-scheduled", // Cancel while the task waits in the schedule
-	"overdue-parked",   // overdue start parked at its entry while the schedule handler makes its next round
+	"cancel-parked",          // Cancel returns while the handler is parked after its state checks
+	"cancel-queued",          // Cancel returns while the task still waits behind a running task
+	"sched-parked",           // Schedule returns while the handler is parked after its state checks
+	"sched-defer",            // Schedule returns while the deferred reset of the execution is parked
+	"queue-defer",            // Queue returns while the deferred reset of the execution is parked
+	"stale-timer",            // a max-delay schedule entry is removed before its timer fires; another task is scheduled later
+	"requeue-running",        // a running task with a short MaxDelay is queued again from outside
+	"requeue-overdue",        // a task started by the overdue path re-queues itself
+	"sched-while-run",        // Schedule from outside while the task runs
+	"cancel-scheduled",       // Cancel while the task waits in the schedule
+	"sched-after-queued-run", // a task that ran via the queue is later only scheduled and comes due while a queued task runs
+	"sched-order",            // sequential re-scheduling of listed tasks: the schedule stays sorted
+	"stale-queue-pop",        // queue handler parked between popping the task and locking it; the overdue path runs the task meanwhile
+	"stale-overdue-finished", // overdue start parked at its entry; the queue handler starts and finishes the task; then the overdue start continues
+	"stale-overdue-running",  // ... continues while the task still runs and has scheduled itself again
+	"overdue-parked",         // overdue start parked at its entry while the schedule handler makes its next round
 }
 
 func genPlan(r *vlib.Rand, id int, name string) Hist {
@@ -307,6 +312,33 @@ func genPlan(r *vlib.Rand, id int, name string) Hist {
 	}
 	// generic numeric knobs live in Clients[0][0] to keep the spec self-describing
 	h.Clients = [][]Op{{{Kind: "knob", OffMs: vlib.Pick(r, 150, 250, 400), DelayMs: vlib.Pick(r, 20, 30, 40)}}}
+	if name == "sched-order" {
+		// 3-6 tasks that are only ever scheduled far in the future (never due within the
+		// history) by ONE client: Schedule calls are strictly sequential and no handler
+		// touches the schedule, so it must be sorted after every call
+		nt := r.Range(3, 6)
+		h.Tasks = make([]TaskSpec, nt)
+		for i := range h.Tasks {
+			h.Tasks[i] = TaskSpec{RunUs: []int{300}}
+		}
+		used := map[int]bool{}
+		var ops []Op
+		for i := 0; i < nt; i++ { // everybody gets listed first
+			ops = append(ops, Op{Kind: opSchedule, Task: i})
+		}
+		for n := r.Range(6, 14); n > 0; n-- { // then re-schedule listed tasks earlier and later
+			ops = append(ops, Op{Kind: opSchedule, Task: r.Intn(nt)})
+		}
+		for i := range ops {
+			m := r.Range(10, 600) // minutes, all distinct
+			for used[m] {
+				m = r.Range(10, 600)
+			}
+			used[m] = true
+			ops[i].OffMs = m * 60000
+		}
+		h.Clients = append(h.Clients, ops)
+	}
 	return h
 }
 
